@@ -110,6 +110,9 @@ func parseIOCalls(trace []string) []ioCall {
 			continue
 		}
 		var c ioCall
+		if strings.Contains(l, " occ=0 ") {
+			continue // the firing of a byte-level fault armed at open, not a call of its own
+		}
 		for _, f := range strings.Fields(l) {
 			switch {
 			case strings.HasPrefix(f, "op="):
